@@ -300,7 +300,7 @@ def main():
         write_shard(os.path.join(outdir, 'bp_%d_%d.v' % (seed, k // shard)), cs[k:k + shard])
     same = collections.Counter(c['same'] for c in cs)
     print('%d cases, %d history operations, %d further operations; images equal/differ/unusable: %d/%d/%d; '
-          'reopened layout does not fit: %d; hidden entries: %d'
+          'reopened layout does not fit: %d; catalog records in no directory: %d'
           % (len(cs), sum(len(c['ops']) for c in cs), sum(len(c['post']) for c in cs), same[1], same[0], same[-1],
              sum(1 for c in cs if c['ro'][5] < 0),
              sum(1 for c in cs for p in c['ro'][4] if p == ())))
